@@ -2,7 +2,8 @@
 """Evaluate seeded changes in parallel without touching /repo: each change is applied in its own scratch worktree of /repo (under /tmp), its demonstration and
 the property's quick check run with PYTHONPATH pointing at that worktree (black_it is then imported from there, also by child processes), the worktree is removed.
 usage: seeded_eval_wt.py [--seeds 0,1,2] [--jobs 6] <seeded-dir-name> ...      (writes seeded/<name>/result.json like seeded_eval.py)
-The final confirmation of a wave is still made with seeded_eval.py on /repo itself."""
+The final confirmation of a wave is still made with seeded_eval.py on /repo itself.  SEEDED_RESULT_NAME=<file> writes the result under another name
+(used for the regression run of all changes against the final checks: result_final.json)."""
 import json, os, subprocess, sys
 from concurrent.futures import ThreadPoolExecutor
 from pathlib import Path
@@ -33,11 +34,12 @@ def one(name):
     env = dict(os.environ, PYTHONPATH=wt)
     res = {"property": prop, "dir": name, "mode": "scratch worktree + PYTHONPATH"}
     try:
-        base = sh(f"{PY} {d / 'demo.py'}", cwd="/tmp", timeout=1200)
-        res["demo_without_patch_rc"] = base.returncode
-        dm = sh(f"{PY} {d / 'demo.py'}", cwd="/tmp", env=env, timeout=1200)
-        res["demo_with_patch_rc"] = dm.returncode
-        res["demo_with_patch_tail"] = (dm.stdout + dm.stderr)[-300:]
+        if not os.environ.get("SEEDED_SKIP_DEMO"):
+            base = sh(f"{PY} {d / 'demo.py'}", cwd="/tmp", timeout=1200)
+            res["demo_without_patch_rc"] = base.returncode
+            dm = sh(f"{PY} {d / 'demo.py'}", cwd="/tmp", env=env, timeout=1200)
+            res["demo_with_patch_rc"] = dm.returncode
+            res["demo_with_patch_tail"] = (dm.stdout + dm.stderr)[-300:]
         res["checks"] = []
         for s in seeds:
             c = sh(f"{PY} harness/check.py {prop} --tier quick", cwd=str(VERIF), env=dict(env, VERIF_SEED=str(s)), timeout=7200)
@@ -53,7 +55,7 @@ def one(name):
             res["checks"].append(e)
     finally:
         sh(f"git -C /repo worktree remove --force {wt}")
-    (d / "result.json").write_text(json.dumps(res, indent=1) + "\n")
+    (d / os.environ.get("SEEDED_RESULT_NAME", "result.json")).write_text(json.dumps(res, indent=1) + "\n")
     return name, res
 
 
